@@ -22,9 +22,9 @@ sys.path.insert(0, os.path.dirname(HERE))
 
 
 def copy_sources(dst, root='/repo'):
-    from sa.core import EXCLUDE_DIRS
+    # every source file (a patch may touch files the analysis itself leaves out, e.g. lib_trainer/future_research)
     for dirpath, dirnames, filenames in os.walk(root):
-        dirnames[:] = [d for d in dirnames if d not in EXCLUDE_DIRS]
+        dirnames[:] = [d for d in dirnames if d not in ('.git', '__pycache__', 'Rules')]
         for fn in filenames:
             if fn.endswith('.py'):
                 rel = os.path.relpath(os.path.join(dirpath, fn), root)
